@@ -9,6 +9,7 @@
 import MosVerif.Model.Router
 import MosVerif.Model.WireIO
 -- @component handle MosVerif.RouterIO.run
+-- @component prefetchfw MosVerif.RouterIO.runPrefetchFw
 namespace MosVerif.RouterIO
 open MosVerif MosVerif.Wire MosVerif.Router MosVerif.WireIO
 
@@ -169,5 +170,57 @@ def run (case impl : String) : String × String :=
         | none => "unparsed"
     (out, v)
   | _, _ => ("bad-case", "na")
+
+/-! ### `prefetchfw`: the upstream query of a background refresh (cache hit in the last quarter of the entry's life)
+  case : ecs=<0|1> addr=<…> q=<name>,<type>,<class>     (one unconditional forward rule to upstream 0, cache on)
+  out  : cached=<0|1> rcode=<n> fw=<k>:<hex>…
+  The refresh goes through the same `forward` / `packReq` as a miss, with the same client address: the model's
+  prediction is `packReq env q` sent exactly once to upstream 0, while the client is answered from the cache. -/
+
+def wantEcs (env : Env) : Bytes :=
+  if env.ecs ∧ env.addr.isValid then
+    match env.addr.unmap with
+    | .v4 b => [0, 8, 0, 7, 0, 1, 24, 0] ++ b.take 3
+    | .v6 b => [0, 8, 0, 11, 0, 2, 56, 0] ++ b.take 7
+    | .none => []
+  else []
+
+/-- C10/C12 judgement of one forwarded query (written from the property text) -/
+def checkForwarded (env : Env) (q : Question) (wire : Bytes) : String :=
+  match unpackMsg wire with
+  | .ok fm =>
+    if fm.questions ≠ [q] then "viol:C10:forwarded-question"
+    else if !fm.hdr.rd ∨ fm.hdr.response then "viol:C10:forwarded-flags"
+    else match fm.additionals with
+      | [opt] =>
+        if opt.rtype ≠ typeOPT then "viol:C12:forwarded-additional"
+        else if opt.rdata ≠ .raw (wantEcs env) then "viol:C12:ecs"
+        else "ok"
+      | _ => "viol:C12:forwarded-opt-count"
+  | _ => "viol:C10:forwarded-undecodable"
+
+def runPrefetchFw (case impl : String) : String × String :=
+  let toks := words case
+  match (kvGet toks "ecs").bind boolOfStr, (kvGet toks "addr").bind addrOfStr, (kvGet toks "q").bind questionOfStr with
+  | some ecs, some addr, some q0 =>
+    let env : Env := ⟨ecs, addr, [⟨none, false, 0, some 0⟩], []⟩
+    let q : Question := { q0 with name := lowerName q0.name }
+    let out := match packReq env q with
+      | .ok wire => s!"cached=1 rcode=0 fw=0:{hexOfBytes wire}"
+      | _ => "cached=1 rcode=0"
+    let it := words impl
+    let fws := (it.filter (·.startsWith "fw=")).filterMap fun t =>
+      match (t.drop 3).toString.splitOn ":" with
+      | [k, h] => do pure ((← natOfStr k), (← bytesOfHex h))
+      | _ => none
+    let v :=
+      if impl == "panic" then "viol:panic"
+      else if kvGet it "cached" != some "1" then "viol:C19:hit-not-served-from-cache"
+      else match fws with
+        | [(k, wire)] => if k ≠ 0 then "viol:C10:wrong-upstream" else checkForwarded env q wire
+        | [] => "viol:C19:no-refresh"
+        | _ => "viol:C19:more-than-one-refresh"
+    (out, v)
+  | _, _, _ => ("bad-case", "na")
 
 end MosVerif.RouterIO
